@@ -642,10 +642,20 @@ def _state_nonfinite(model):
 
 
 def _plain_nlbgs_converges(spec, point, atol):
+    """True if fault-free plain NLBGS converges *comfortably* here (within half of OAS's maxiter). A coupling that
+    needs 90 of its 100 sweeps without any fault is not one about which 'converges within maxiter once faults stop'
+    can be asserted: the faulty sweeps themselves count against the budget (seen once in a 25-seed soak on the
+    E,G x0.08 variant)."""
     m = zoo.build(spec)
     apply_solvers(m, "nlbgs", "direct", atol)
     m.set_point(point)
-    return _run(m, {}, "plain") == "ok"
+    if _run(m, {}, "plain") != "ok":
+        return False
+    for path in m.coupled:
+        s = m.prob.model._get_subsystem(path).nonlinear_solver
+        if s._iter_count > s.options["maxiter"] // 2:
+            return False
+    return True
 
 
 def _node_probes(case, probe):
